@@ -1042,6 +1042,7 @@ class XmlDocument(SubXmlBase):
                 else:
                     value = self.from_unicode(xtba_type.type, elt.text)
 
+                self._validate_modifier_value(xtba_type.type, elt.text, value)
                 inst._safe_set(xtba_key, value, xtba_type.type, xtba_attrs)
 
         # parse input to set incoming data to related attributes.
@@ -1090,18 +1091,38 @@ class XmlDocument(SubXmlBase):
             else:
                 value = self.from_unicode(member.type, value_str)
 
+            self._validate_modifier_value(member.type, value_str, value)
             member_attrs = self.get_cls_attrs(member.type)
             inst._safe_set(key, value, member.type, member_attrs)
 
         if self.validator is self.SOFT_VALIDATION:
             for key, c in flat_type_info.items():
-                val = frequencies.get(key, 0)
+                if issubclass(c, XmlData):
+                    continue
+
+                if issubclass(c, XmlAttribute):
+                    # an attribute member occurs when the element carries it
+                    val = 1 if key in elt.attrib else 0
+                else:
+                    val = frequencies.get(key, 0)
+
                 attr = self.get_cls_attrs(c)
                 if val < attr.min_occurs or val > attr.max_occurs:
                     raise Fault('Client.ValidationError', '%r member does not '
                                          'respect frequency constraints.' % key)
 
         return inst
+
+    def _validate_modifier_value(self, cls, string, value):
+        """Soft validation of the value of an XmlAttribute or XmlData member:
+        the same checks its type gets when it is a child element."""
+
+        if self.validator is self.SOFT_VALIDATION and string is not None:
+            if not cls.validate_string(cls, string):
+                raise ValidationError(string)
+
+            if not cls.validate_native(cls, value):
+                raise ValidationError(value)
 
     def array_from_element(self, ctx, cls, element):
         retval = [ ]
